@@ -157,6 +157,7 @@ impl PM1Base {
             return None;
         }
         let pmax = std::cmp::min(self.larges.len(), budget - 1000);
+        #[cfg(yamaquasi_verif)] crate::verif::ev(|| format!("\"op\":\"s2_hdr\",\"m\":\"pm1b\",\"budget\":{},\"fmax\":{},\"nfac\":{},\"pmax\":{}", budget, fmax, self.factors.len(), pmax));
         // Compute xr^2k for 2k = 2 ... 86
         let xr2 = mg_mul(n, ninv, xr, xr);
         // jumps[k] = xr^(2k+2)
@@ -173,6 +174,7 @@ impl PM1Base {
         let mut h = mg_mul(n, ninv, xr502, xr);
         let mut product = h + minus_one_r;
         let mut exp = 503;
+        #[cfg(yamaquasi_verif)] crate::verif::ev(|| format!("\"op\":\"s2_w\",\"m\":\"pm1b\",\"p\":{}", exp));
         debug_assert!(self.larges[0] == 503);
         for (idx, &p) in self.larges[1..pmax].iter().enumerate() {
             if idx % 64 == 0 {
@@ -189,6 +191,7 @@ impl PM1Base {
             product = mg_mul(n, ninv, product, h + minus_one_r);
             exp = p;
         }
+        #[cfg(yamaquasi_verif)] crate::verif::ev(|| format!("\"op\":\"s2_w\",\"m\":\"pm1b\",\"p\":{}", exp));
         let d = Integer::gcd(&n, &product);
         if d > 1 && d < n {
             return Some((d, n / d));
@@ -257,6 +260,7 @@ pub fn pm1_impl(n: &Uint, b1: u64, b2: f64, verbosity: Verbosity) -> Option<(Vec
     let mut factors = vec![];
     let start1 = std::time::Instant::now();
     let (b2real, _, _) = stage2_params(b2);
+    #[cfg(yamaquasi_verif)] crate::verif::ev(|| format!("\"op\":\"s2_hdr\",\"m\":\"pm1\",\"b1\":{},\"b2\":{},\"b2rep\":{},\"multieval\":{}", b1, b2 as u64, b2real as u64, b2 > MULTIEVAL_THRESHOLD));
     if verbosity >= Verbosity::Info {
         eprintln!("Attempting P-1 with B1={b1} B2={b2real:e}");
     }
@@ -379,6 +383,7 @@ pub fn pm1_impl(n: &Uint, b1: u64, b2: f64, verbosity: Verbosity) -> Option<(Vec
     let mut products = Vec::with_capacity(block.len());
     products.push(one);
     let mut product = zn.sub(&x, &one);
+    #[cfg(yamaquasi_verif)] crate::verif::ev(|| format!("\"op\":\"s2_w\",\"m\":\"pm1\",\"p\":{}", p_prev));
     loop {
         for &p in block {
             if p <= p_prev {
@@ -393,6 +398,7 @@ pub fn pm1_impl(n: &Uint, b1: u64, b2: f64, verbosity: Verbosity) -> Option<(Vec
             x = zn.mul(x, gaps[gap / 2 - 1]);
             product = zn.mul(&product, &zn.sub(&x, &one));
             products.push(product);
+            #[cfg(yamaquasi_verif)] crate::verif::ev(|| format!("\"op\":\"s2_w\",\"m\":\"pm1\",\"p\":{}", p));
             p_prev = p;
             if p > b2 as u32 {
                 break;
@@ -610,6 +616,7 @@ fn exp_modn_large(zn: &ZmodN, g: &MInt, exp: &LargeExpType) -> MInt {
 
 fn pm1_stage2_polyeval(zn: &ZmodN, b2: f64, g: MInt) -> (Vec<Uint>, Uint) {
     let (_, d1, d2) = stage2_params(b2);
+    #[cfg(yamaquasi_verif)] crate::verif::ev(|| format!("\"op\":\"s2_hdr\",\"m\":\"pm1poly\",\"b2\":{},\"b2rep\":{},\"d1\":{},\"d2\":{}", b2 as u64, stage2_params(b2).0 as u64, d1, d2));
     // Instead of computing g^p for all primes p in [b1, b2]
     // write the unknown p as qD - r where r < D and gcd(r,D)=1
     // and look for (g^D)^q == g^r modulo some unknown factor.
@@ -640,6 +647,7 @@ fn pm1_stage2_polyeval(zn: &ZmodN, b2: f64, g: MInt) -> (Vec<Uint>, Uint) {
         let mut bg = g.clone();
         let mut bexp = 1;
         v.push(bg.clone());
+        #[cfg(yamaquasi_verif)] crate::verif::ev(|| format!("\"op\":\"s2_b\",\"m\":\"pm1poly\",\"e\":{}", b));
         while b < d1 {
             b += 2;
             if b % 3 == 0 || Integer::gcd(&b, &d1) != 1 {
@@ -651,6 +659,7 @@ fn pm1_stage2_polyeval(zn: &ZmodN, b2: f64, g: MInt) -> (Vec<Uint>, Uint) {
             }
             bg = zn.mul(&bg, &gaps[gap as usize / 2 - 1]);
             v.push(bg.clone());
+            #[cfg(yamaquasi_verif)] crate::verif::ev(|| format!("\"op\":\"s2_b\",\"m\":\"pm1poly\",\"e\":{}", b));
             bexp = b;
         }
         debug_assert!(bg == exp_modn(zn, &g, bexp));
@@ -701,6 +710,7 @@ fn pm1_stage2_polyeval(zn: &ZmodN, b2: f64, g: MInt) -> (Vec<Uint>, Uint) {
     let mut z = vec![MInt::default(); d2];
     convolve_modn_ntt(mzp, d2, &p, &q, &mut z, 0);
     let vals = &mut z[p.len() - 2..];
+    #[cfg(yamaquasi_verif)] crate::verif::ev(|| format!("\"op\":\"s2_conv\",\"m\":\"pm1poly\",\"plen\":{},\"nvals\":{},\"d2\":{}", p.len(), vals.len(), d2));
     // Compute cumulative product
     // The first interesting value is z[deg p = len(p)-1].
     vals[0] = zn.one();
@@ -923,5 +933,42 @@ pub mod vhook_smooth {
     /// (packed prime power blocks, large primes) of the 64-bit P-1 base, in order.
     pub fn pm1base_blocks(b: &PM1Base) -> (Vec<u32>, Vec<u32>) {
         (b.factors.to_vec(), b.larges.to_vec())
+    }
+}
+
+/// Verification accessors for the private stage-2 parameter table of P-1 (cfg(yamaquasi_verif) only).
+#[cfg(yamaquasi_verif)]
+pub mod vhook_params {
+    /// Row (B2, d1, d2) selected for the requested B2.
+    pub fn stage2_params(b2: f64) -> (f64, u64, u64) {
+        super::stage2_params(b2)
+    }
+    /// Requested B2 above which the polynomial evaluation stage 2 (which uses the table) is taken.
+    pub fn multieval_threshold() -> f64 {
+        super::MULTIEVAL_THRESHOLD
+    }
+}
+
+/// Verification accessors for the private exponentiation helpers and the local stage-2 table
+/// (cfg(yamaquasi_verif) only).
+#[cfg(yamaquasi_verif)]
+pub mod vhook {
+    use super::*;
+
+    pub fn exp_modn(zn: &ZmodN, g: &MInt, exp: u64) -> MInt {
+        super::exp_modn(zn, g, exp)
+    }
+    pub fn exp_modn_large(zn: &ZmodN, g: &MInt, exp: &U1024) -> MInt {
+        super::exp_modn_large(zn, g, exp)
+    }
+    /// row (B2, d1, d2) of the P-1 stage-2 table selected for a requested B2
+    pub fn stage2_params(b2: f64) -> (f64, u64, u64) {
+        super::stage2_params(b2)
+    }
+    pub fn stage2_table() -> Vec<(f64, u64, u64)> {
+        STAGE2_PARAMS.to_vec()
+    }
+    pub fn multieval_threshold() -> f64 {
+        MULTIEVAL_THRESHOLD
     }
 }
